@@ -100,12 +100,37 @@ int run_preempt(const Args& a) {
     Session wses; // the nested writer's session
     uint64_t executions = 0, changed_results = 0, retried = 0;
     const std::size_t VLEN = 24;
+    // some cases store part of the keys as *inline* values (pointer-typed; the 8 bytes are the value, never
+    // dereferenced by the library): a cleared slot of such a key looks different to readers than a heap value
+    bool inline_mode = false;
+    auto is_inline = [&](const std::string& k) { return inline_mode && (hash_bytes(k) & 1U) == 0; };
+    auto wput = [&](Token tok, const std::string& k, uint64_t id, bool unique) {
+        if (is_inline(k)) {
+            void* pv = reinterpret_cast<void*>(static_cast<uintptr_t>(id) << 1U); // NOLINT
+            return yk::put<void*>(tok, storage, k, &pv, sizeof(void*), static_cast<void***>(nullptr), static_cast<yk::value_align_type>(alignof(void*)), unique);
+        }
+        return yput(tok, storage, k, make_value(id, k, VLEN), unique);
+    };
+    // value id of a returned (pointer, length); 0 + problem text when it is not a value of that key
+    auto decode = [&](const std::string& k, const char* p, std::size_t len, bool has_len, std::string& problem) -> uint64_t {
+        if (is_inline(k)) {
+            if (has_len && len != sizeof(void*)) {
+                if (problem.empty()) { problem = "value length of an inline value is not 8 for key " + k; }
+                return 0;
+            }
+            return static_cast<uint64_t>(reinterpret_cast<uintptr_t>(p) >> 1U); // NOLINT
+        }
+        uint64_t vid = 0;
+        ValCheck vc = has_len ? check_value(p, len, k, vid) : check_value_nolen(p, k, vid);
+        if (vc != ValCheck::OK && problem.empty()) { problem = std::string("value ") + valcheck_name(vc) + " for key " + k; }
+        return vid;
+    };
 
     auto build = [&](const Recipe& rc, std::map<std::string, uint64_t>& state) {
         yk::create_storage(storage);
         state.clear();
         for (auto& [k, id] : rc.initial) {
-            yput(wses.tok, storage, k, make_value(id, k, VLEN));
+            wput(wses.tok, k, id, false);
             state[k] = id;
         }
         for (auto& k : rc.pre_removed) {
@@ -117,6 +142,7 @@ int run_preempt(const Args& a) {
     for (uint64_t cs = 0; cs < cases && rep.violations() < 12; ++cs) {
         // ---------------------------------------------------------------- recipe
         Recipe rc;
+        inline_mode = r.chance(1, 3);
         rc.ukind = static_cast<int>(r.below(3));
         std::size_t n = r.chance(1, 5) ? r.range(150, 420) : r.range(24, 90); // the larger ones have two interior levels
         std::string pfx = rc.ukind == 0 ? "" : (rc.ukind == 1 ? "LAYER001" : "PREFIX8B");
@@ -193,7 +219,7 @@ int run_preempt(const Args& a) {
             r2l = r.chance(1, 2);
             early_abort = r.chance(1, 5);
         } else if (reader == "scan") {
-            if (r.chance(1, 5)) {
+            if (r.chance(1, 3)) {
                 r2l = true;
                 max_size = 1;
                 re = scan_endpoint::INF;
@@ -210,6 +236,9 @@ int run_preempt(const Args& a) {
         // burst: anchored relative to the reader's range (universe index space)
         auto uidx = [&](const std::string& k) { return static_cast<std::size_t>(std::lower_bound(rc.uni.begin(), rc.uni.end(), k) - rc.uni.begin()); };
         std::size_t ulo = uidx(lk), uhi = std::min(rc.uni.size() - 1, uidx(rk));
+        if (re == scan_endpoint::INF) { uhi = rc.uni.size() - 1; } // the read really extends to the right end (right-to-left scans start there)
+        if (le == scan_endpoint::INF) { ulo = 0; }
+        if (reader == "scan" && r2l && r.chance(2, 3)) { ulo = uhi >= 24 ? uhi - 24 : 0; } // bursts next to where a right-to-left scan actually reads
         auto make_burst = [&](std::map<std::string, uint64_t> st, int& kind_out) {
             std::vector<WOp> w;
             std::size_t anchor;
@@ -294,13 +323,13 @@ int run_preempt(const Args& a) {
         apply_model(w2);
         std::function<void()> burst1 = [&] {
             for (auto& op : w1) {
-                status s = op.ins ? yput(wses.tok, storage, op.key, make_value(op.id, op.key, VLEN), true) : yk::remove(wses.tok, storage, op.key);
+                status s = op.ins ? wput(wses.tok, op.key, op.id, true) : yk::remove(wses.tok, storage, op.key);
                 if (s != status::OK) { rep.violation("preempt:writer-status", "write of the nested burst failed", JObj().str("got", st(s)).boolean("insert", op.ins).str("key", op.key).done()); }
             }
         };
         std::function<void()> burst2 = [&] {
             for (auto& op : w2) {
-                status s = op.ins ? yput(wses.tok, storage, op.key, make_value(op.id, op.key, VLEN), true) : yk::remove(wses.tok, storage, op.key);
+                status s = op.ins ? wput(wses.tok, op.key, op.id, true) : yk::remove(wses.tok, storage, op.key);
                 if (s != status::OK) { rep.violation("preempt:writer-status", "write of the nested burst failed", JObj().str("got", st(s)).boolean("insert", op.ins).str("key", op.key).done()); }
             }
         };
@@ -323,12 +352,12 @@ int run_preempt(const Args& a) {
             pre.armed = true;
             if (reader == "get") {
                 std::pair<char*, std::size_t> g;
-                o.rc = yget(storage, get_key, g);
+                std::pair<yk::node_version64_body, yk::node_version64*> cv{};
+                o.rc = yget(storage, get_key, g, &cv);
                 pre.armed = false;
+                if (o.rc == status::WARN_NOT_EXIST && cv.second != nullptr) { o.nv.emplace_back(cv.first, cv.second); }
                 if (o.rc == status::OK) {
-                    uint64_t vid = 0;
-                    ValCheck vc = check_value(g.first, g.second, get_key, vid);
-                    if (vc != ValCheck::OK) { o.problem = std::string("value ") + valcheck_name(vc); }
+                    uint64_t vid = decode(get_key, g.first, g.second, true, o.problem);
                     o.items.emplace_back(get_key, vid);
                 } else if (o.rc != status::WARN_NOT_EXIST) {
                     o.problem = "status " + st(o.rc);
@@ -339,9 +368,7 @@ int run_preempt(const Args& a) {
                 pre.armed = false;
                 if (o.rc != status::OK && !(o.rc == status::WARN_NOT_EXIST && tl.empty())) { o.problem = "status " + st(o.rc); }
                 for (auto& t : tl) {
-                    uint64_t vid = 0;
-                    ValCheck vc = check_value(std::get<1>(t), std::get<2>(t), std::get<0>(t), vid);
-                    if (vc != ValCheck::OK && o.problem.empty()) { o.problem = std::string("value ") + valcheck_name(vc) + " for key " + std::get<0>(t); }
+                    uint64_t vid = decode(std::get<0>(t), std::get<1>(t), std::get<2>(t), true, o.problem);
                     o.items.emplace_back(std::get<0>(t), vid);
                 }
             } else {
@@ -359,9 +386,7 @@ int run_preempt(const Args& a) {
                 std::size_t guard = 0;
                 while (s == status::OK && guard++ < 5000) {
                     std::string fk = ctx->full_key();
-                    uint64_t vid = 0;
-                    ValCheck vc = check_value_nolen(static_cast<char*>(v), fk, vid);
-                    if (vc != ValCheck::OK && o.problem.empty()) { o.problem = std::string("value ") + valcheck_name(vc) + " for key " + fk; }
+                    uint64_t vid = decode(fk, static_cast<char*>(v), 0, false, o.problem);
                     o.items.emplace_back(fk, vid);
                     s = yk::iscan_next(ctx, v, cb);
                 }
@@ -428,7 +453,7 @@ int run_preempt(const Args& a) {
             }
             auto describe = [&]() {
                 JObj d;
-                d.str("reader", reader).num("case", cs).num("universe", static_cast<uint64_t>(rc.ukind)).num("preempted_at_access", kstar).num("accesses_undisturbed", K).num("burst_kind", static_cast<uint64_t>(bkind)).num("burst_ops", w1.size());
+                d.str("reader", reader).boolean("inline_values", inline_mode).num("case", cs).num("universe", static_cast<uint64_t>(rc.ukind)).num("preempted_at_access", kstar).num("accesses_undisturbed", K).num("burst_kind", static_cast<uint64_t>(bkind)).num("burst_ops", w1.size());
                 d.boolean("second_burst", fired2).str("l_key", lk).str("r_key", rk).num("l_end", static_cast<uint64_t>(le)).num("r_end", static_cast<uint64_t>(re)).boolean("right_to_left", r2l).num("max_size", max_size).boolean("early_abort", early_abort);
                 d.num("result_keys", o.items.size()).num("set_size", o.nv.size()).str("first_burst_key", w1[0].key).boolean("first_burst_op_is_insert", w1[0].ins);
                 return d;
@@ -519,7 +544,8 @@ int run_preempt(const Args& a) {
             for (auto& [body, ptr] : o.nv) {
                 if (ptr->get_stable_version() != body) { fresh = false; }
             }
-            if (reader != "get" && o.problem.empty() && (want_phantom || want_post) && !o.aborted) {
+            // (a get that reported WARN_NOT_EXIST with a checked version is a read of the one-point interval [key,key])
+            if ((reader != "get" || (o.rc == status::WARN_NOT_EXIST && !o.nv.empty())) && o.problem.empty() && (want_phantom || want_post) && !o.aborted) {
                 // (a cursor over a one-point range whose key exists reports nothing by design: there is no absent key to protect)
                 if (o.nv.empty() && reader == "scan") { rep.violation(P + "empty-version-set", "reader collected no node version", describe().done()); }
                 // covered interval: whole interval, or up to the last returned key for a size-limited scan
@@ -548,7 +574,7 @@ int run_preempt(const Args& a) {
                     }
                     if (!cand.empty()) {
                         const std::string& pk = cand[r.below(cand.size())];
-                        status ps = yput(wses.tok, storage, pk, make_value(next_id.fetch_add(1), pk, VLEN), true);
+                        status ps = wput(wses.tok, pk, next_id.fetch_add(1), true);
                         if (ps == status::OK) {
                             rep.count("post_inserts_checked");
                             bool stale = false;
@@ -570,7 +596,7 @@ int run_preempt(const Args& a) {
                 uint64_t q = K == 0 ? 0 : (kstar * 8) / (K + 1);
                 rep.distinct(mix64(static_cast<uint64_t>(rc.ukind), mix64(static_cast<uint64_t>(bkind), mix64(q, (changed ? 1 : 0) + (fresh ? 2 : 0) + (fired2 ? 4 : 0) + (r2l ? 8 : 0)))));
             }
-            if (executions % 97 == 0 && fired1) {
+            if (executions % 97 == 0 && fired1 && !inline_mode) {
                 // quiescent structure + model equality on a sample (bring the model to what actually ran)
                 Model model;
                 for (auto& [k, id] : final_state) { model[k] = make_value(id, k, VLEN); }
